@@ -344,8 +344,17 @@ func hms(c *level.Chunk) []*level.BitStorage {
 	return []*level.BitStorage{c.HeightMaps.WorldSurfaceWG, c.HeightMaps.WorldSurface, c.HeightMaps.OceanFloorWG, c.HeightMaps.OceanFloor, c.HeightMaps.MotionBlocking, c.HeightMaps.MotionBlockingNoLeaves}
 }
 
+var usedSave = map[int]*save.Chunk{}
+
 func checkSave(c *vm.Ctx, r *vm.Rand, ch *level.Chunk, d *chunkDesc, throughFile bool) {
 	var s save.Chunk
+	// a program that saves chunk after chunk may well reuse one save.Chunk: half of the conversions go into the
+	// value the previous chunk with the same number of sections was converted into
+	if prev := usedSave[d.secs]; prev != nil && r.Bool() {
+		s = *prev
+		d.ops = append(d.ops, "ChunkToSave into the save.Chunk a previous chunk was converted into")
+		c.Cover("save.into-used-save-chunk")
+	}
 	s.YPos = int32(r.Intn(9) - 4)
 	s.XPos, s.ZPos = int32(r.Intn(100)-50), int32(r.Intn(100)-50)
 	var err error
@@ -355,6 +364,10 @@ func checkSave(c *vm.Ctx, r *vm.Rand, ch *level.Chunk, d *chunkDesc, throughFile
 	if err != nil {
 		c.Violation("save/to-error", "ChunkToSave failed: "+err.Error(), d.wit())
 		return
+	}
+	{
+		keep := s // shallow copy: shares Sections and maps with s, as a reused value would
+		usedSave[d.secs] = &keep
 	}
 	if !saveMatchesModel(c, &s, ch, d, "after ChunkToSave") {
 		return
